@@ -35,7 +35,7 @@ LEAN_MODULES = ['ThermoVerif.Props.C02']
 RULE = ('60 % single-mix cases, 40 % histories (3–6 further operations on ONE receiver: mix again with the receiver among the '
         'inlets, assign H / h / S, separate a share — each step judged by the oracles); flags vle=True 14 %, energy_balance=False 14 %; '
         'MultiStream receivers / inlets over gl, ls, gs, gls, lL, glL and single-phase L streams (conserve_phases 50 % when one is present); '
-        '6 % shared-data histories (a MultiStream separated from its own phase view; a stream and its proxy taken there and back) ; 6 % gas-phase histories in a Peng-Robinson (equation-of-state) property package; 7 % of cases with trace flows (1e-9..1e-8 kmol/hr in all, non-empty); cases of 1–5 inlets (single-phase l/g streams, two-phase MultiStreams, empty streams, Heat/Power objects, None), '
+        '9 % shared-state histories (a MultiStream separated from its own phase view; a stream and its proxy taken there and back; two properties read, a composition-only edit, one re-read, the other used); 6 % gas-phase histories in a Peng-Robinson (equation-of-state) property package; 7 % of cases with trace flows (1e-9..1e-8 kmol/hr in all, non-empty); cases of 1–5 inlets (single-phase l/g streams, two-phase MultiStreams, empty streams, Heat/Power objects, None), '
         'T 250–500 K, P 1e4–1e7 Pa (log-uniform), 5 chemicals with random flows; receiver fresh / multi-phase / one of the inlets; '
         'Q = ΔT·ΣC with ΔT ∈ ±40 K, 0, or huge (fallback branches); conserve_phases 10 %; then separate_out of a sub-stream '
         '(equal shares of {exactly the parent\'s T, another T} x {same phase, opposite phase}; 15 % at another pressure) and '
@@ -285,6 +285,10 @@ def noise_is_cause(s, T0, ph0, Tstar):
         return False if fits else None
 
 
+def CHEM_IDS(s):
+    return s.chemicals.IDs
+
+
 def fresh_H(s):
     """the enthalpy flow of the stream's CURRENT state, evaluated with the mixture functions directly (no property memo)"""
     if s.isempty(): return 0.0
@@ -341,6 +345,7 @@ def last_call_unsound(rec, rtol):
     return not (abs(r[3]) <= rtol * abs(r[5]) + allowance)
 
 
+FAR_K = 100.0         # 'far start': the solution lies further than this from the temperature the solver starts at
 ALLOW_K = 2e-6        # a read-back may be off by the solver's own T_tol (1e-6 K) times the slope dX/dT, doubled
 RTOL = {'H': 1e-9, 'h': 1e-9, 'S': 2e-5, 'Sg': 1e-9}     # 'Sg': entropy of a stream that is and stays a gas
 
@@ -406,6 +411,16 @@ def run_ops(ops):
         elif op == 'T':
             a = objs[int(t[1])]
             if is_stream(a): a.T = float(t[2])
+        elif op == 'flow':
+            # `flow a i v [phase]`: one flow rate edited in place — a composition-only change (phase, T, P bit-identical)
+            a = objs[int(t[1])]
+            if is_stream(a):
+                if is_multi(a):
+                    ph = t[4] if len(t) > 4 and t[4] in a.phases else a.phases[0]
+                    a.imol[ph, CHEM_IDS(a)[int(t[2])]] = float(t[3])
+                else:
+                    a.imol.data[int(t[2])] = float(t[3])
+                tags.add('edit:composition-only')
         elif op == 'rd':
             a = objs[int(t[1])]
             if is_stream(a): read(a, t[2] if len(t) > 2 else 'H')       # a read that fills the property memo
@@ -610,11 +625,11 @@ def run_ops(ops):
                         mid_ = 0.5 * (a_ + b_)
                         if sum(value_at(i, 'H', mid_) for i in streams) <= expected: a_ = mid_
                         else: b_ = mid_
-                    if abs(a_ - T0r) > 120.0 and not vle:
+                    if abs(a_ - T0r) > FAR_K and not vle:
                         # the H setter inside mix_from starts from the receiver's old temperature: the documented
                         # far-start weakness of the Aitken-accelerated Newton iteration (same signature as for the setters)
                         fail('set:raised:far-start', f'mix_from raised: the receiver starts at T = {T0r!r}, the balance puts the '
-                                                     f'mixture at about {a_!r} K, more than 120 K away')
+                                                     f'mixture at about {a_!r} K, more than 100 K away')
                         continue
                     fail('mix:raised', f'mix_from raised although Σ inlet.H + Q = {expected!r} lies between Σ H(250 K) = {lo!r} '
                                        f'and Σ H(500 K) = {hi!r} of the inlets\' material')
@@ -784,7 +799,16 @@ def run_ops(ops):
                 documented = mono is False and noise_is_cause(s, T0, ph0, _TSTAR[0]) is True
                 excused = documented and readback_ok
                 wandered = documented and not readback_ok and left_dom and last_call_unsound(rec, RTOL[tk])
+                # the documented far-start weakness in its other guise: the solve in the stream's own phase raised (the
+                # solution lies more than 100 K from the start, the property function is smooth and increasing there), and
+                # the fallback found a consistent answer in the other phase at an unphysical temperature
+                far_flip = False
+                if not documented and readback_ok and left_dom and rec and rec[0][0] == 'ex':
+                    _TSTAR[0] = None
+                    far_flip = (micro_monotone(s, kind, x, None if is_multi(s) else ph0) is True
+                                and _TSTAR[0] is not None and abs(_TSTAR[0] - T0) > FAR_K)
                 sig = ('set:raised:S:model-not-monotone' if excused else
+                       'set:raised:far-start' if far_flip else
                        'set:left-domain:S:model-not-monotone' if wandered else
                        f'set:readback:{kind}' if not readback_ok else f'set:left-domain:{kind}')
                 fail(sig, f'assigned {kind} = {x!r} to a {ph0} stream, read back {back!r} '
@@ -806,17 +830,17 @@ def run_ops(ops):
                 _TSTAR[0] = None
                 mono = micro_monotone(s, kind, x, None if is_multi(s) else ph0)
                 # a second, rarer circumstance (about 1 in 6000 enthalpy targets, liquids holding propane): the property
-                # function is smooth and increasing, but the Aitken-accelerated Newton iteration, started more than 120 K
+                # function is smooth and increasing, but the Aitken-accelerated Newton iteration, started more than 100 K
                 # away from the solution with a heat capacity that varies by a factor 2 on the way, overshoots below the
                 # range of the property models, which raise
-                far = mono is True and _TSTAR[0] is not None and abs(_TSTAR[0] - T0) > 120.0
+                far = mono is True and _TSTAR[0] is not None and abs(_TSTAR[0] - T0) > FAR_K
                 if mono is False and kind == 'S' and noise_is_cause(s, T0, ph0, _TSTAR[0]) is not True:
                     mono = None          # the library's solver fails on the smoothed entropy as well: not the known defect
                 fail('set:raised:far-start' if far else f'set:raised:{kind}' + (':model-not-monotone' if mono is False else ''),
                      f'assigning {kind} = {x!r} (between the values at 250 K and 500 K) to a {ph0} stream '
                      f'at T = {T0!r} raised' + (' (the property function is not strictly increasing at the 2e-6 K scale '
                                                 'around the solution)' if mono is False else
-                                                f' (the solution lies at {_TSTAR[0]!r} K, more than 120 K away)' if far else ''))
+                                                f' (the solution lies at {_TSTAR[0]!r} K, more than 100 K away)' if far else ''))
         else:
             raise ValueError('unknown op ' + line)
     return model_in, outs, failures, sorted(tags), nontrivial
@@ -955,7 +979,37 @@ def gen_alias_history(rng):
     (`parent.separate_out(parent['g'])`, `parent -= parent['l']`); (b) a stream and its proxy: read at T1, go to T2 through
     one handle and read through the other, come back to exactly T1, then use the stream as an inlet / in a separation"""
     ops = []
-    if rng.random() < 0.5:
+    r0 = rng.random()
+    if r0 < 0.34:
+        # (c) the property memo across a composition-only edit: two different properties are read, one flow is changed
+        # in place (phase, T, P untouched), one of the two is read again, then the OTHER one is used — as an inlet of a mix,
+        # in a separation, or re-assigned to the stream (which must not move T)
+        multi = rng.random() < 0.25
+        a = (add_obj(ops, f'M {gen_T(rng)} {gen_P(rng)} {gen_flows(rng)}|{gen_flows(rng)}') if multi
+             else add_obj(ops, f'S {rng.choice("lg")} {gen_T(rng)} {gen_P(rng)} {gen_flows(rng)}'))
+        other = gen_stream(rng, ops, empty=False)
+        recv = add_obj(ops, f'S {rng.choice("lg")} 298.15 101325.0 {gen_flows(rng, True)}')
+        X, Y = rng.sample(['H', 'S', 'C', 'h'], 2)
+        if rng.random() < 0.7: X = rng.choice(['H', 'H', 'S'])
+        if Y == X: Y = 'C'
+        ops.append(f'rd {a} {X}'); ops.append(f'rd {a} {Y}')
+        for _ in range(rng.choice([1, 1, 2])):
+            ops.append(f'flow {a} {rng.randrange(len(CHEMS))} {r6(rng.uniform(0.5, 60))}' + (f' {rng.choice("gl")}' if multi else ''))
+        ops.append(f'rd {a} {Y}')
+        r = rng.random()
+        if X == 'S' or r < 0.3:
+            ops.append(f'set {a} {X if X in ("H", "S", "h") else "H"} cur 0')
+        elif r < 0.75:
+            mode, q = gen_Q(rng, sane=True)
+            ops.append(f'mix {recv} {a},{other} {mode} {q} 0')
+        elif r < 0.9 or multi:
+            add_obj(ops, f'sum {a},{other}')
+        else:
+            fr = ','.join(r6(rng.uniform(0, 0.6)) for _ in CHEMS)
+            b = add_obj(ops, f'sub {a} {fr} {r6(rng.uniform(-20, 20))} same 1.0')
+            ops.append(f'sep {a} {b}')
+        return Case(ops, {'history': True})
+    if r0 < 0.67:
         T = gen_T(rng)
         a = add_obj(ops, f'M {T} {gen_P(rng)} {gen_flows(rng)}|{gen_flows(rng)}')
         if rng.random() < 0.5: ops.append(f'rd {a} H')
@@ -1166,7 +1220,7 @@ def generate(rng, tier, index, nworkers):
     n = max(1, budget(tier)['cases'] // nworkers)
     for _ in range(n):
         r = rng.random()
-        yield gen_pr_history(rng) if r < 0.06 else gen_alias_history(rng) if r < 0.12 else gen_history(rng) if r < 0.45 else gen_case(rng)
+        yield gen_pr_history(rng) if r < 0.06 else gen_alias_history(rng) if r < 0.15 else gen_history(rng) if r < 0.46 else gen_case(rng)
 
 
 def corpus():
